@@ -84,9 +84,14 @@ pub fn exec_line(line: &str) -> String {
 pub fn gen_line(r: &mut Rng) -> String {
     match r.below(20) {
         0 | 1 | 2 | 3 | 4 | 5 => {
-            let p = gen_pool(r, false);
+            let mut p = gen_pool(r, false);
             let (oi, ai) = if r.chance(1, 2) { (0, 1) } else { (1, 0) };
-            let offer = gen_offer(r, p.assets[oi].amount.u128());
+            let mut offer = gen_offer(r, p.assets[oi].amount.u128());
+            if r.chance(1, 5) {
+                if let Some((x, y, dx)) = sliver_cp(r) {
+                    p.assets[oi].amount = Uint128::new(x); p.assets[ai].amount = Uint128::new(y); offer = dx;
+                }
+            }
             format!("swap {} {} {} {}", pool_str(&p), p.assets[oi].denom, offer, p.assets[ai].denom)
         }
         6 | 7 | 8 | 9 | 10 | 11 | 12 => {
@@ -150,6 +155,26 @@ pub fn run(seed: u64, cases: u64, replay: Option<&str>, o: &mut Out) {
 /// monitors on the implementation's answer: fee shares (C04), x*y (C03), exact-invariant accuracy
 /// and monotonicity for stableswap (C19, C03)
 fn emit_monitors(line: &str, res: &str, o: &mut Out) {
+    if line.starts_with("offeramt ") && res.starts_with("ok ") {
+        // C12: offering one unit more than the reverse quote yields at least the requested amount
+        let quoted: u128 = res.split_whitespace().nth(1).unwrap().parse().unwrap();
+        let mut t = Toks::new(line);
+        t.s();
+        let x = t.u128(); let y = t.u128(); let ask = t.u128(); let fees = t.fees();
+        let Some(offer) = quoted.checked_add(1) else { return };
+        let pool = mantra_dex_std::pool_manager::PoolInfo {
+            pool_identifier: "o.rev".into(), asset_denoms: vec!["uom".into(), "uusd".into()], lp_denom: "lp".into(),
+            asset_decimals: vec![6, 6], assets: vec![coin(x, "uom"), coin(y, "uusd")], pool_type: PoolType::ConstantProduct,
+            pool_fees: fees.clone(), status: Default::default(),
+        };
+        let r = guarded(|| helpers::compute_swap(&pool, &coin(offer, "uom"), "uusd").map(|c| c.return_amount.u128()).map_err(|e| e.to_string()));
+        if let Ok(ret) = r {
+            let total: u128 = [fees.protocol_fee.share, fees.swap_fee.share, fees.burn_fee.share].iter().map(|d| d.atomics().u128()).sum::<u128>()
+                + fees.extra_fees.iter().map(|f| f.share.atomics().u128()).sum::<u128>();
+            o.line(&format!("mon_rev {} {} {} {} {} {}", x, y, ask, total, quoted, ret), "ok");
+        }
+        return;
+    }
     if !line.starts_with("swap ") || !res.starts_with("ok ") { return; }
     let rt: Vec<u128> = res.split_whitespace().skip(1).map(|x| x.parse().unwrap()).collect();
     let (ret, _slip, sf, pf, bf, ef) = (rt[0], rt[1], rt[2], rt[3], rt[4], rt[5]);
